@@ -29,7 +29,7 @@ MANIFEST = {
                 "the model ends at 'what is passed to execvpe and which pipes are requested'; what the child observes, exit codes, "
                 "end-of-file and payload delivery are tested (every start/open form x redirection mask x environment; masks x sizes "
                 "0,1,65535,65536,65537,1 MiB; exit codes; descriptor tables of parent and child read through /proc), not proved; the theorems "
-                "open_pipe_ends_exact / pipe_protocol_delivers hold in the abstract kernel model of Kernel.lean (FIFO pipes with partial "
+                "open_pipe_ends_exact / pipe_protocol_delivers / join_returns_exit_code hold in the abstract kernel model of Kernel.lean (FIFO pipes with partial "
                 "transfers, end-of-file when no write end is left, dup2/close/vfork on descriptor tables), whose adequacy for Linux is an assumption.  The '0 = closed' descriptor bookkeeping assumes pipe() never "
                 "returns descriptor 0.  The model mirrors the code repaired by fixes/args/0001-0007.",
         "design_ref": "DESIGN.md 3/C20",
@@ -591,7 +591,7 @@ def histories_for(ctx):
         "run-time delivery (the child observes argv/environ as given, join returns its exit code, redirected bytes arrive intact up to "
         "end-of-file): needs a kernel model; proved part = process_delivery_partial / argv_env_exact* (what is passed to execvpe, which pipes "
         "are requested), open_pipe_ends_exact and pipe_protocol_delivers (over the abstract kernel model of Kernel.lean); that Linux behaves like "
-        "that model and that execvpe hands argv/envp on unchanged is tested against the real kernel by the run/io/exit/execfail/p/killtest/fdtable streams"]
+        "that model and that execvpe hands argv/envp on unchanged is tested against the real kernel by the run/io/exit/late/sig/killbusy/execfail/p/killtest/fdtable streams"]
     ctx.cov["exhaustive"] = True
     ctx.cov["exhaustive_scope"] = (f"argv words<={AMAX[quick]} over {len(WORDS)}-word alphabet: {len(ea)}; command lines <= {SMAX[quick]} "
                                    f"symbols over 4: {len(es)}; redirection masks 8 x sizes {len(SIZES)}; exit codes: {len(xl)}")
